@@ -484,6 +484,9 @@ func (in *Interp) toJSON(v value, t types.Type) (n *JNode, err *jsonErr) {
 			return &JNode{Kind: jNull}, nil
 		}
 	}
+	if pt, ok := t.Underlying().(*types.Pointer); ok && isNamed(pt.Elem(), "encoding/json", "RawMessage") {
+		return in.toJSON(*(v.(*value)), pt.Elem())
+	}
 	if m := in.findMethod(t, "MarshalJSON"); m != nil && !isNamed(t, "encoding/json", "RawMessage") {
 		res := in.callFn(in.curFrame, 0, m, []value{v}).(Tuple)
 		if e := res[1].(Iface); e.T != nil {
